@@ -90,7 +90,7 @@ xml_get_val_arr(const uint8_t *xml_data, size_t xml_data_size,
 	ssize_t level = 0;
 
 	if (NULL != next_pos && xml_data <= (*next_pos) &&
-	    (xml_data + xml_data_size) > (*next_pos)) {
+	    (xml_data + xml_data_size) >= (*next_pos)) {
 		TagEnd = (*next_pos);
 		cur_tag = ((TagEnd == xml_data) ? 0 : (tag_arr_count - 1));
 	} else { /* Not set or Out of range. */
@@ -102,6 +102,8 @@ xml_get_val_arr(const uint8_t *xml_data, size_t xml_data_size,
 		if (NULL == TagStart)
 			return (ESPIPE);
 		TagStart ++;
+		if (TagStart >= xml_data_end) /* '<' is the last byte. */
+			return (ESPIPE);
 		data_avail = (size_t)(xml_data_end - TagStart);
 		switch ((*TagStart)) {
 		case '?': /* <?...?> processing instructions */
@@ -149,6 +151,10 @@ xml_get_val_arr(const uint8_t *xml_data, size_t xml_data_size,
 			level --;
 			if (0 <= level) /* Close some sub tag. */
 				continue;
+			if (0 == cur_tag) { /* Stray close tag on top level. */
+				level = 0;
+				continue;
+			}
 			if (0 != mem_cmpn(tag_arr[(cur_tag - 1)], tag_arr_cnt[(cur_tag -1)],
 			    (TagStart + 1), (size_t)(TagEnd - TagStart))) /* Is name close qual name open? */
 				continue;
@@ -211,6 +217,8 @@ xml_get_val_arr(const uint8_t *xml_data, size_t xml_data_size,
 			}
 			if (1 != level &&
 			    0 == ee) /* Open some sub tag. */
+				continue;
+			if (cur_tag >= tag_arr_count) /* Inside target: no more names to match. */
 				continue;
 			if (0 != mem_cmpn(tag_arr[cur_tag], tag_arr_cnt[cur_tag],
 			    TagStart, (size_t)((TagNameEnd + 1) - TagStart)))
@@ -534,7 +542,7 @@ xml_get_val_ns_arr(const uint8_t *xml_data, size_t xml_data_size,
 
 	memset(ret_ns_size, 0x00, (sizeof(size_t) * tag_arr_count));
 	if (NULL != next_pos && xml_data <= (*next_pos) &&
-	    (xml_data + xml_data_size) > (*next_pos)) {
+	    (xml_data + xml_data_size) >= (*next_pos)) {
 		TagEnd = (*next_pos);
 		cur_tag = ((TagEnd == xml_data) ? 0 : (tag_arr_count - 1));
 	} else { /* Not set or Out of range. */
@@ -546,6 +554,8 @@ xml_get_val_ns_arr(const uint8_t *xml_data, size_t xml_data_size,
 		if (NULL == TagStart)
 			return (ESPIPE);
 		TagStart ++;
+		if (TagStart >= xml_data_end) /* '<' is the last byte. */
+			return (ESPIPE);
 		data_avail = (size_t)(xml_data_end - TagStart);
 		switch ((*TagStart)) {
 		case '?': /* <?...?> processing instructions */
@@ -595,6 +605,10 @@ xml_get_val_ns_arr(const uint8_t *xml_data, size_t xml_data_size,
 			//LOG_EV_FMT("tag cmp (%zu) = %s", ((TagEnd + 1) - TagNameStart), TagNameStart);
 			if (0 <= level) /* Close some sub tag. */
 				continue;
+			if (0 == cur_tag) { /* Stray close tag on top level. */
+				level = 0;
+				continue;
+			}
 			if (0 != ret_ns_size[(cur_tag - 1)]) { /* Fix name space. */
 				TagNameStart += (ret_ns_size[(cur_tag - 1)] + 1); /* = 'ns' + ':' */
 			}
@@ -663,6 +677,8 @@ xml_get_val_ns_arr(const uint8_t *xml_data, size_t xml_data_size,
 			//LOG_EV_FMT("tag cmp (%zu) = %s", ((TagNameEnd + 1) - TagNameStart), TagNameStart);
 			if (1 != level &&
 			    0 == ee) /* Open some sub tag. */
+				continue;
+			if (cur_tag >= tag_arr_count) /* Inside target: no more names to match. */
 				continue;
 			NameSpEnd = mem_chr(TagNameStart,
 			    (size_t)((TagNameEnd + 1) - TagNameStart), ':');
